@@ -24,7 +24,7 @@ def run(ctx):
     ctx.tlc_mc("wire", "RespFramingMC", "RespFramingMC.cfg", consts={"D": d}, workers=8, timeout=900)
     # 2. programs + expected views: all programs of length <= n, and the programs of length
     #    n+1 that start with one of k seed-chosen ops
-    n, k = ctx.pick((2, 7), (3, 2))
+    n, k = ctx.pick((2, 7), (3, 4))
     rnd = random.Random(ctx.seed)
     first = rnd.sample(OPS, k)
     if os.environ.get("VERIF_C03_FIRST"):      # debugging aid: choose the first ops by hand
@@ -35,7 +35,7 @@ def run(ctx):
     if not path:
         raise Infra("RespFramingGen wrote no vectors")
     # 3. run them against a live server
-    env = {"VERIF_C03_FULLLEN": 2, "VERIF_C03_PERLONG": ctx.pick(2, 3)}
+    env = {"VERIF_C03_FULLLEN": 2, "VERIF_C03_PERLONG": ctx.pick(2, 4)}
     for kname in ("VERIF_C03_DUMP", "VERIF_C03_WORKERS"):
         if os.environ.get(kname):
             env[kname] = os.environ[kname]
@@ -47,6 +47,6 @@ def run(ctx):
                 "exchange with a live server; non-trivial = the program sets a body, a no-body status, SkipBody, "
                 "framing fields, close or trailers, or the request is HEAD")
     ctx.assumptions = ["31-op menu; all programs of length <= %d and the length-%d programs starting with %s" % (n, n + 1, first),
-                       "programs of length <= 2 meet all 12 request kinds, longer ones %d seed-chosen kinds" % ctx.pick(2, 3),
+                       "programs of length <= 2 meet all 12 request kinds, longer ones %d seed-chosen kinds" % ctx.pick(2, 4),
                        "contents: abc / 5000 bytes / rawbody / sw1+sw2 / errmsg; server with default buffer sizes; 4 stream reader flavours",
                        "declared-size mismatches are not combined with CompressHandler; trailers announced for a non-chunked message are not compared"]
